@@ -21,3 +21,24 @@ from nmea2000.consts import PhysicalQuantities, FieldTypes            # noqa: E4
 
 assert os.path.realpath(nmea2000.__file__).startswith(os.path.realpath(REPO)), nmea2000.__file__
 CANBOAT_JSON = os.path.join(REPO, "canboat.json")
+
+
+import contextlib as _contextlib
+import datetime as _dt
+
+
+@_contextlib.contextmanager
+def decoder_clock_advanced(seconds: float):
+    """Inside the block the decoder module's clock (its `datetime.now()`) runs `seconds` ahead - the seam is the
+    module attribute `datetime` that nmea2000.decoder imported; everything else in the process keeps real time."""
+    real = decoder_mod.datetime
+
+    class _Shifted(real):               # type: ignore[misc, valid-type]
+        @classmethod
+        def now(cls, tz=None):
+            return real.now(tz) + _dt.timedelta(seconds=seconds)
+    decoder_mod.datetime = _Shifted
+    try:
+        yield
+    finally:
+        decoder_mod.datetime = real
